@@ -196,3 +196,26 @@ Lemma domain_geometry_mapped_iff (f : ftype) (has_map : bool) :
 Proof.
   split; [reflexivity|]. split; [reflexivity|]. intros c Hc. subst f. split; reflexivity.
 Qed.
+
+(* the point the model takes as vonMises maximum is a mesh point of minimal modulus *)
+Lemma argmin_abs_spec (l : list Q) (d : Q) :
+  (argmin_abs l d = d \/ In (argmin_abs l d) l) /\ (Qabs (argmin_abs l d) <= Qabs d)%Q /\
+  (forall x, In x l -> (Qabs (argmin_abs l d) <= Qabs x)%Q).
+Proof.
+  revert d. induction l as [|a l IH]; intros d.
+  - cbn. split; [left; reflexivity|]. split; [apply Qle_refl | intros x []].
+  - unfold argmin_abs in *. cbn [fold_left].
+    set (d' := if Qle_bool (Qabs d) (Qabs a) then d else a).
+    destruct (IH d') as [H1 [H2 H3]].
+    assert (Hd : (Qabs d' <= Qabs d)%Q /\ (Qabs d' <= Qabs a)%Q /\ (d' = d \/ d' = a)).
+    { unfold d'. destruct (Qle_bool (Qabs d) (Qabs a)) eqn:E.
+      - apply Qle_bool_iff in E. split; [apply Qle_refl|]. split; [exact E | left; reflexivity].
+      - assert (L : (Qabs a < Qabs d)%Q).
+        { apply Qnot_le_lt. intro C. apply Qle_bool_iff in C. congruence. }
+        split; [apply Qlt_le_weak; exact L|]. split; [apply Qle_refl | right; reflexivity]. }
+    destruct Hd as [Hd1 [Hd2 Hd3]].
+    split; [|split].
+    + destruct H1 as [H1|H1]; [rewrite H1; destruct Hd3 as [->| ->]; [left; reflexivity | right; left; reflexivity] | right; right; exact H1].
+    + eapply Qle_trans; [exact H2 | exact Hd1].
+    + intros x [<-|Hx]; [eapply Qle_trans; [exact H2 | exact Hd2] | apply H3; exact Hx].
+Qed.
